@@ -122,7 +122,8 @@ type Summary struct {
 // template variables (the same in the process environment, SSO_CONFIG_<KEY>, for the production path)
 // cap and amt carry `$`: a variable's value is substituted verbatim, whatever it contains (a rewrite target's
 // capture reference, a secret with dollars)
-var vars = map[string]string{"zone": "sso", "root_domain": "test", "team": "core", "secs": "s", "rtype": "rewrite", "cap": "$1", "amt": "p$$x${y}$0"}
+// (names are whatever follows SSO_CONFIG_ in the environment, lower-cased: letters, digits, underscores)
+var vars = map[string]string{"zone2": "sso", "root_domain": "test", "k8s_team": "core", "secs": "s", "r_type1": "rewrite", "cap": "$1", "amt": "p$$x${y}$0"}
 
 const cluster = "sso"
 
@@ -199,7 +200,7 @@ func raw(s string, tpl bool, r *rand.Rand) string {
 	if !tpl {
 		return s
 	}
-	for _, name := range []string{"zone", "root_domain", "team", "cap", "amt"} {
+	for _, name := range []string{"zone2", "root_domain", "k8s_team", "cap", "amt"} {
 		val := vars[name]
 		if strings.Contains(s, val) && r.Intn(3) != 0 {
 			if r.Intn(2) == 0 {
@@ -311,7 +312,7 @@ func (rd *renderer) route(ind string, b Block, v vals, extra string) string {
 	if b.Type != "-" {
 		t := v.typ
 		if rd.tpl && t == "rewrite" && rd.r.Intn(2) == 0 {
-			t = "{{rtype}}"
+			t = "{{r_type1}}"
 		} else if b.Type == "bogus" || rd.r.Intn(2) == 0 {
 			t = q(t)
 		}
